@@ -51,9 +51,21 @@ class Lemma:
         defs = []
         for k, d in divs.items():
             if k in known:
-                nm = 'inv__%d' % len(dm)
+                nm = 'inv__%d' % len(defs)
                 dm[k] = nm
                 defs.append((nm, d))
+        # a divisor that a hypothesis equates with a known non-zero one shares its reciprocal
+        # (sound: under `a == b`, x/a == x/b)
+        for h in self.hyps:
+            if h.op == '==':
+                a, b = h.args
+                for (p, q) in ((a, b), (b, a)):
+                    if p.key() in divs and p.key() not in dm and q.key() in known:
+                        if q.key() not in dm:
+                            nm = 'inv__%d' % len(defs)
+                            dm[q.key()] = nm
+                            defs.append((nm, q))
+                        dm[p.key()] = dm[q.key()]
         return dm, defs
 
     def query(self, goal_idx=None, negate=True):
@@ -138,6 +150,54 @@ def _num(s):
 
 def _dec(s):
     return s
+
+
+PORTFOLIO = [
+    ('z3-4.16 solve-eqs+smt', [Z3_VERUS, '-smt2'], '(check-sat-using (then simplify solve-eqs smt))'),
+    ('z3-4.16 default(nlsat)', [Z3_VERUS, '-smt2'], None),
+    ('z3-5.1 default', ['z3-new', '-smt2'], None),
+]
+
+
+def run_portfolio(text, timeout, workdir, tag):
+    """run the z3 configurations in parallel; the first sat/unsat answer wins"""
+    base = os.path.join(workdir, 'L_%s' % re.sub(r'[^A-Za-z0-9_.-]', '_', tag))
+    procs = []
+    t0 = time.time()
+    for k, (name, cmd, tactic) in enumerate(PORTFOLIO):
+        path = '%s.p%d.smt2' % (base, k)
+        with open(path, 'w') as f:
+            f.write(text.replace('(check-sat)', tactic) if tactic else text)
+        try:
+            pr = subprocess.Popen(cmd + ['-T:%d' % timeout, path], stdout=subprocess.PIPE, stderr=subprocess.STDOUT, text=True)
+        except OSError:
+            continue
+        procs.append((name, pr))
+    answer = ('unknown', None, 0.0, '', None)
+    pending = list(procs)
+    while pending and time.time() - t0 < timeout + 5:
+        for (name, pr) in list(pending):
+            if pr.poll() is not None:
+                pending.remove((name, pr))
+                out = pr.stdout.read()
+                first = out.strip().split('\n')[0].strip() if out.strip() else 'unknown'
+                if first in ('sat', 'unsat'):
+                    model = parse_model(out) if first == 'sat' else None
+                    answer = (first, model, time.time() - t0, out[:4000], name)
+                    pending = []
+                    break
+        else:
+            time.sleep(0.01)
+    for (_n, pr) in procs:
+        if pr.poll() is None:
+            pr.kill()
+            try:
+                pr.wait(timeout=5)
+            except Exception:
+                pass
+    if answer[0] == 'unknown':
+        answer = ('timeout' if time.time() - t0 >= timeout else 'unknown', None, time.time() - t0, '', None)
+    return answer
 
 
 def discharge(lemma, workdir, timeout=60, solver='z3-nlsat'):
